@@ -11,10 +11,10 @@ TECHNIQUE = {
  "C01": "path-sensitive exploration (event bits for Content-Length / Transfer-Encoding matches, facts on connectionClose and the framing cell) of the request head field loop; serve-loop error exploration; byte-comparison coverage of the chunk-size scanner; return classification of the body readers the serve loop dispatches (rejection / framed-reader verdict / success guarded by the declared framing); callee identity of every comparison of a scanned field name with a framing field name; reader-release rule of the serve loop (released between requests only when found empty or on an error)",
  "C03": "value-flow to the bounding writer and bounded-use classification of its methods, path-sensitive nil-return exploration of writeBodyFixedSize, control-dependence of body emission on the no-body predicate, must-pass rules in SetContentLength, serve-loop HEAD exploration; chunk-marker rule (terminator is last, data chunks length-tested); Content-Length installation through the generic setter removes Transfer-Encoding on every path; chunked stream writer: data already read is framed before a read error ends the loop",
  "C02": "path-sensitive exploration of the serve loop's SSA CFG over a finite abstraction (event bits + boolean/nil facts): must-close / must-check obligations per iteration; must-pass (reach-avoiding) rule: chunked-EOF flag raised only after the trailer reader and an examination of its error; use-after-release rule for the pooled request stream held in a field (releasing routines derived through parameter flow); reader-release rule of the serve loop (no release while a body stream may read through it)",
- "C04": "connection typestate in RoundTrip by path-sensitive exploration (dispose-exactly-once counter, pooled-only-after-clean-read), control-dependence of pooling in the stream-close closure, select-case typestate of pooled pipeline work items, per-item typestate of the pipeline writer; header-overwrite-before-close ordering rule with inputs recomputed from the stream-close closure (must-write summaries); restore-before-hand-back rule for Response.SkipBody (reach-avoiding from the raising store to every return / completion send); completion-channel typestate of the pipeline worker (pending queue drained only after both goroutines reported their end)",
+ "C04": "connection typestate in RoundTrip by path-sensitive exploration (dispose-exactly-once counter, pooled-only-after-clean-read), control-dependence of pooling in the stream-close closure, select-case typestate of pooled pipeline work items, per-item typestate of the pipeline writer; header-overwrite-before-close ordering rule with inputs recomputed from the stream-close closure (must-write summaries); restore-before-hand-back rule for Response.SkipBody (reach-avoiding from the raising store to every return / completion send); completion-channel typestate of the pipeline worker (pending queue drained only after both goroutines reported their end); dual drain rule: no return of the pipeline worker with both goroutines stopped before the pending queue was found empty",
  "C39": "typestate of spawned children by path-sensitive exploration of the supervision function (recorded + waited before any return, hook or next spawn), dominance of the deferred teardown, ordering rules (reach-avoiding searches) inside the teardown; dominance of cmd.Wait() over the creation of every RecoverInterval timer; grace timer created outside loops",
- "C40": "loop-carried tuple coupling by alias-tracking exploration of the selection loop, penalty pairing (counters in the abstract state), nil-result handling and panic reachability over the static call graph; self-derivation of every assignment of the candidate list; lockset and container-alias check of the candidate list",
- "C41": "semaphore pairing and select-case typestate by path-sensitive exploration of tryDial, provenance of the connect context's bound, wrap-on-return rule, must-pass rules in the rotation loop; must-pass rule for the lazy creation of the concurrency channel on every configuration branch; deadline examination on the resolver-failure return",
+ "C40": "loop-carried tuple coupling by alias-tracking exploration of the selection loop, penalty pairing (counters in the abstract state), nil-result handling and panic reachability over the static call graph; self-derivation of every assignment of the candidate list; lockset and container-alias check of the candidate list; interval bound of the post-increment penalty from the guards of the 'kept' return (atomic add or compare-and-swap form)",
+ "C41": "semaphore pairing and select-case typestate by path-sensitive exploration of tryDial, provenance of the connect context's bound, wrap-on-return rule, must-pass rules in the rotation loop; must-pass rule for the lazy creation of the concurrency channel on every configuration branch; deadline examination on the resolver-failure return; value-identity rule: the deadline argument handed on resolves to the routine's own deadline parameter on every merge edge",
  "C05": "backward cleanliness (taint) analysis with sanitiser classes over SSA: reaching definitions of scratch fields, in-place and returning neutraliser summaries, call-site resolution of helper parameters, induction over checked storage fields; neutraliser shape precondition; scan-coverage of the neutralisers in the zone (difference-bound) domain; proxy CONNECT target: whole-string CR/LF test of every value written to the proxy (provenance through closures and field stores)",
  "C06": "as C05 with two sanitiser classes (CR/LF and ';') for Cookie fields and the request cookie list; out-parameter completeness of the cookie scanners by path-sensitive exploration; one-field-per-attribute rule for the cookie parser (may-write sets of callees per attribute branch)",
  "C07": "limit-flow: interprocedural propagation of limit parameters, use classification (compared / limited reader / forwarded), loop-carried staleness of the serve loop's limit variable, must-pass rules on the error response path; per-path must-precede rule for buffering reads in limit-rejecting functions; forwarded-limit rule: a limit passed to a limit-taking callee is never merged with a non-positive constant where the received limit is positive; default-limit rule: limit-taking calls of the serve loop receive the raw configuration field",
@@ -27,21 +27,21 @@ TECHNIQUE = {
  "C16": "path-sensitive exploration of the serve loop's timeout branch: value identity of the ctx written/released, stale-field reads after the swap; semaphore placement rules for the timeout wrapper (release only after the wrapped handler, in its goroutine; creation-on-read of the channel); re-imposition of ctx bookkeeping after every (re)acquisition of the ctx; reachability of connection writes from exported RequestCtx methods, accepted only under the ctx's timeout lock after a nil test of timeoutResponse, with the installation under the same lock",
  "C17": "path-sensitive exploration (ordering and never-after rules) of the serve loop's hijack branch and of hijackConnHandler; ctx-state family for hijack fields; must-pass rule: unconditional SetDeadline(zero) between any armed deadline and the hijack hand-off; never-after rule: no wrapper-recycling call with the value reported StateHijacked before the variable is redefined",
  "C18": "connsCount pairing per function (counters in the abstract state, contracts of callees), lockset must-analysis with a guarded-by table, bound check control-dependence and critical-section atomicity by reach-avoiding searches; container-alias escape analysis on the idle list; waiter cancellation on every give-up return (deferred closure or reach-avoiding search); wantConn.cancel: lock precedes every return, delivered connection read under the lock and given back on every non-nil path (edge-sensitive walk at the nil test)",
- "C19": "path-sensitive exploration of the retry loop (per-transmission must-pass events, loop-invariance of the body-stream flag, retry-decision phi), condition atoms of the idempotency predicate, constant retry flags of the transport's early returns",
+ "C19": "path-sensitive exploration of the retry loop (per-transmission must-pass events, loop-invariance of the body-stream flag, retry-decision phi), condition atoms of the idempotency predicate, constant retry flags of the transport's early returns; counter monotonicity: the value compared with the limit and the loop-carried value are the header counter plus a positive step on every merge edge",
  "C20": "reach-avoiding (must-pass) searches between hops of the redirect loop, constant sets of deleted header names, backward value slicing of the trust anchor (derives from the URL string, not from Request storage; loop-invariant); path rule for the 303 teardown (every step on every path through the branch), callee classification of the strip's deleters (case-insensitive over stored names) and of the host comparison (ASCII-only folding); path rule: every return of the case-insensitive deleter follows the sweep or a 'normalised' test; comparator bodies scanned for bit-or folding",
- "C21": "path-sensitive exploration: scheme comparison on every path to the transport, TLS-typed results of dialAddr under the TLS flag; value-flow of the map-selecting flag into HostClient.IsTLS; derivation/examination rule for every re-parse during reference resolution; information-loss rule: a function that copies URI.RequestURI() into the header does not lower parsedURI (may-analysis over callees); parse-error test dominates the scheme comparison; lockset and container-alias check of the idle-connection list",
- "C22": "result-use analysis of stackless function values (SSA referrers, reach-avoiding search on the queue-full edge), sibling cross-check of the body compressors, control-dependence of coder selection; buffer-release ordering in the body compressors; zone analysis of level normalisers against the codec packages' level constants; acquire/release pool identity of pooled codecs (origin tracing through merges and conversions, pool globals compared); list-member matching on every no-write return of the Vary helper; sibling agreement on the Response fields the body compressors assign",
- "C34": "reach-avoiding searches in the stream closers and writers, classification of every store to a bodyStream field (wrap/swap, dominated by the closer, read path); lockset check of the once-guard of the compressed stream wrapper; pooled-stream field coverage (must-write on release or acquire); bounded-writer rule shared with C03",
- "C35": "path-sensitive typestate of *multipart.Form values from their producing call to every return; dominance of RemoveAll over nil stores; reset coverage; serve-loop must-reset; emptiness typestate of the form slot at every store (with derived must-clear / may-fill routine sets and caller discharge), ctx release-or-hand-over typestate of the serve function under a checked sentinel premise",
- "C37": "lockset must-analysis against a frozen guarded-by table (discovered statistically, confirmed by reading), atomic-access consistency over all loads/stores, publish-immutability of lock-free shared entries; container-alias escape analysis on every guarded slice/map; Server fields read by RequestCtx methods and assigned by Server methods join the table on every run; same-field copy rule between two RequestCtx objects; who-may-write rule for the embedded connection of pooled wrappers; release typestate of pipeline work items",
- "C38": "typestate over select cases (timer / queue / completion) explored on every path of the deadline call; shape of the overflow return; non-nil-ness (facts / sentinel identity) of every error stored into a work item by the connection goroutines; release typestate of pipeline work items (pooled only after the completion was received)",
- "C23": "path-sensitive exploration of the FS request handler (guards before every use of the path, correlated with the rewriter's nil-ness), who-may-call rule over file-system access sites, operand provenance of the normaliser's dot tests; exactness of the NUL guard decided in the zone domain; comparison provenance of the trailing-slash flag (only == '/') and control-dependence of the trim on that flag",
+ "C21": "path-sensitive exploration: scheme comparison on every path to the transport, TLS-typed results of dialAddr under the TLS flag; value-flow of the map-selecting flag into HostClient.IsTLS; derivation/examination rule for every re-parse during reference resolution; information-loss rule: a function that copies URI.RequestURI() into the header does not lower parsedURI (may-analysis over callees); parse-error test dominates the scheme comparison; lockset and container-alias check of the idle-connection list; who-may-write rule on *tls.Config parameters (base of every store resolves to a fresh object or a Clone on every phi edge)",
+ "C22": "result-use analysis of stackless function values (SSA referrers, reach-avoiding search on the queue-full edge), sibling cross-check of the body compressors, control-dependence of coder selection; buffer-release ordering in the body compressors; zone analysis of level normalisers against the codec packages' level constants; acquire/release pool identity of pooled codecs (origin tracing through merges and conversions, pool globals compared); list-member matching on every no-write return of the Vary helper; sibling agreement on the Response fields the body compressors assign; must-pass rule: the encoding is announced only after the compressed stream or buffer was installed; option table for asynchronous codecs (zstd encoder built with concurrency 1)",
+ "C34": "reach-avoiding searches in the stream closers and writers, classification of every store to a bodyStream field (wrap/swap, dominated by the closer, read path); lockset check of the once-guard of the compressed stream wrapper; pooled-stream field coverage (must-write on release or acquire); bounded-writer rule shared with C03; chunked writer frames read data before its error ends the loop (shared with C03.R7)",
+ "C35": "path-sensitive typestate of *multipart.Form values from their producing call to every return; dominance of RemoveAll over nil stores; reset coverage; serve-loop must-reset; emptiness typestate of the form slot at every store (with derived must-clear / may-fill routine sets and caller discharge), ctx release-or-hand-over typestate of the serve function under a checked sentinel premise; loop rule in WriteMultipartForm: no back edge without a part-creating call",
+ "C37": "lockset must-analysis against a frozen guarded-by table (discovered statistically, confirmed by reading), atomic-access consistency over all loads/stores, publish-immutability of lock-free shared entries; container-alias escape analysis on every guarded slice/map; Server fields read by RequestCtx methods and assigned by Server methods join the table on every run; same-field copy rule between two RequestCtx objects; who-may-write rule for the embedded connection of pooled wrappers; release typestate of pipeline work items; reader-release rule of the serve loop (shared with C02.R5)",
+ "C38": "typestate over select cases (timer / queue / completion) explored on every path of the deadline call; shape of the overflow return; non-nil-ness (facts / sentinel identity) of every error stored into a work item by the connection goroutines; release typestate of pipeline work items (pooled only after the completion was received); pending-queue drain rules of the pipeline worker (shared with C04.R9/R10)",
+ "C23": "path-sensitive exploration of the FS request handler (guards before every use of the path, correlated with the rewriter's nil-ness), who-may-call rule over file-system access sites, operand provenance of the normaliser's dot tests; exactness of the NUL guard decided in the zone domain; comparison provenance of the trailing-slash flag (only == '/') and control-dependence of the trim on that flag; path-sensitive exploration of pathToFilePath: the request path is appended after the root only behind a separator / leading slash / empty path / empty root",
  "C24": "zone (difference-bound) abstract interpretation of ParseByteRange path by path; path-sensitive exploration of the range branches of the FS handler; field re-arm coverage of pooled readers; window-bounded ReadAt buffers in the zone domain (field-load identity, slice lengths, one loop iteration from the header); control-dependence of Content-Encoding on the opened file's own flag; path-sensitive freshness rule for every place that opens an existing compressed copy; the modification-time stamp of a created file is reached only after its Close",
- "C25": "file-value typestate per function with ownership contracts of callees (path-sensitive exploration with a disposal counter), reader-count pairing in the handler, read-modify-write interference rule on tracking lists, lockset must-analysis; use-after-release rule for lists the file's Release walks; container-alias escape analysis; control-dependence of every map insertion on the manager's closed flag; control-dependence of every file-list append on the file's reader count",
- "C28": "classification of element moves in key/value slice routines by index provenance (len-derived vs forward) + who-may-shorten rule over all stores to Args storage; recycled-slot typestate (R-slot): path-sensitive exploration from allocArg to the next keep point with path-sensitive summaries of filler routines; comparison provenance of presence routines (no value-nil test feeds a returned bool)",
- "C29": "as C28 for header storage + sibling agreement of special-name tables + CopyTo field coverage (must-write and copied-from-same-field analyses); R-slot as C28; loop-carried-flag rule for the serialisers' per-field guard; generic-list coverage of every path of a special name's case; must-pass rule: every path of RequestHeader.del removes the name from the generic list",
- "C30": "constant evaluation (big-integer side conditions) + path-sensitive guard exploration on SSA; source classification of the returned accumulator (constants and digit-tested accumulate steps only); must-pass rule: no return of ParseUint without the scan",
- "C33": "typestate of connection ends and data buffers by path-sensitive exploration with select-case events (success exactly on hand-over paths, disposal otherwise), control-dependence of close() on not-yet-closed tests plus lockset, zone-decided exhaustion guard before fetching the next buffer, dominance of a post-wait non-blocking look over end-of-stream returns; no success signal on the closing path of Accept",
+ "C25": "file-value typestate per function with ownership contracts of callees (path-sensitive exploration with a disposal counter), reader-count pairing in the handler, read-modify-write interference rule on tracking lists, lockset must-analysis; use-after-release rule for lists the file's Release walks; container-alias escape analysis; control-dependence of every map insertion on the manager's closed flag; control-dependence of every file-list append on the file's reader count; critical-section atomicity of 'closed = true' with the sweep of the maps (reach-avoiding search to every Unlock/return)",
+ "C28": "classification of element moves in key/value slice routines by index provenance (len-derived vs forward) + who-may-shorten rule over all stores to Args storage; recycled-slot typestate (R-slot): path-sensitive exploration from allocArg to the next keep point with path-sensitive summaries of filler routines; comparison provenance of presence routines (no value-nil test feeds a returned bool); operand set of the keep condition in ParseBytes (lengths of key and value only)",
+ "C29": "as C28 for header storage + sibling agreement of special-name tables + CopyTo field coverage (must-write and copied-from-same-field analyses); R-slot as C28; loop-carried-flag rule for the serialisers' per-field guard; generic-list coverage of every path of a special name's case; must-pass rule: every path of RequestHeader.del removes the name from the generic list; must-pass rule in collectCookies: every parsed line is removed by a shrinking store or a case-insensitive deleter",
+ "C30": "constant evaluation (big-integer side conditions) + path-sensitive guard exploration on SSA; source classification of the returned accumulator (constants and digit-tested accumulate steps only); must-pass rule: no return of ParseUint without the scan; every shift-accumulate step of readHexInt guarded on its own",
+ "C33": "typestate of connection ends and data buffers by path-sensitive exploration with select-case events (success exactly on hand-over paths, disposal otherwise), control-dependence of close() on not-yet-closed tests plus lockset, zone-decided exhaustion guard before fetching the next buffer, dominance of a post-wait non-blocking look over end-of-stream returns; no success signal on the closing path of Accept; zone-domain entailment len(bb) <= 0 at every release of the reader's current buffer",
  "C32": "exhaustive constant evaluation of the table constants and of the consumers' comparisons against reference predicates; dominance of the per-byte loop (or a five-byte shortcut test) over every return of the HTML escaper",
 }
 NOTES = {
